@@ -292,6 +292,7 @@ void harness(void)
     }
   }
   VP_ASSERT(C18, argc == n, "command line splits into a different number of arguments");
+  VP_ASSERT(C03, argc == n, "Windows: the child receives a different number of arguments than were passed");
   for (int a = 0; a < VP_NARG; a++) {
     if (a < n && a < argc) {
       bool same = outlen[a] == len[a];
@@ -301,6 +302,7 @@ void harness(void)
         }
       }
       VP_ASSERT(C18, same, "an argument does not survive the round trip through the command line");
+      VP_ASSERT(C03, same, "Windows: an argument does not reach the child byte for byte");
     }
   }
   free(cmd);
